@@ -435,3 +435,26 @@ func vh_C05_L11_every_run_is_reported_whatever_the_mtu() {
 	}
 	vcover("end")
 }
+
+// C05.L12: a received run that fills whole bitmap words is reported like any other. The
+// cumulative point stands one or two TSNs before a multiple of 64 (also the one at the 2^32
+// wrap); the TSN after it is missing and the next 64, 65 or 128 TSNs have all arrived (the run
+// covers one or two complete words, ending on a word's last bit or one past it): the gap
+// blocks are exactly that one run.
+func vh_C05_L12_run_that_fills_whole_words_is_reported() {
+	base := []uint32{62, 0xffffffbe, 0x7fffffbe}[vPick(3)] // base+2 is a multiple of 64
+	back := uint32(vPick(2))                               // the run starts on the word boundary, or one TSN before it
+	n := []int{64, 65, 128}[vPick(3)]
+	q := newReceivePayloadQueue(192)
+	q.init(base - back)
+	start := base + 2 - back
+	for i := 0; i < n; i++ {
+		vassert(q.push(start+uint32(i)), "in-window TSN accepted")
+	}
+	blocks := q.getGapAckBlocks()
+	vassert(len(blocks) == 1, "one run, one gap block (nothing omitted, nothing split)")
+	if len(blocks) == 1 {
+		vassert(blocks[0].start == 2 && int(blocks[0].end) == n+1, "the block covers exactly the run")
+	}
+	vcover("end")
+}
